@@ -27,7 +27,7 @@ PROFILE = S.GENERAL.but(p_block=6, p_rerun=8,
 
 
 def budget(tier):
-    return dict(examples=6000 if tier == 'quick' else 300000)
+    return dict(examples=6000 if tier == 'quick' else 150000)
 
 
 def strategy(tier):
